@@ -85,6 +85,26 @@ Theorem C17_backward_run_lengths : forall c due rv o e, o_init_log o = true ->
 Proof. exact backward_lengths. Qed.
 Print Assumptions C17_backward_run_lengths.
 
+(* The order theorem speaks of links recorded in the predecessor's OUTPUT list
+   (the list the reversed run gates on).  For a link that is declared in the
+   successor's input list only -- what BaseTask(input_task_list=[[p, FS]])
+   builds -- the statement is false: the forward run respects the link (task 1
+   starts when task 0 is FINISHED), the backward run does not see it and logs
+   both tasks WORKING at step 0.  Recorded finding C17/order-onesided; the
+   implementation behaves the same on corpus/C17/onesided_link.json. *)
+Theorem C17_backward_order_refuted_for_input_only_links :
+  exists c o p i, In (p, FS) (t_inputs c i) /\ t_outputs c p = []
+    /\ l_st (tl (fst (simulate c o (blank c))) p) = [TWorking; TWorking; TFinished; TFinished]
+    /\ l_st (tl (fst (simulate c o (blank c))) i) = [TNone; TNone; TWorking; TWorking]
+    /\ let r := snd (backward_simulate c false true o ([], blank c)) in
+       exists j k, nth_error (l_st (tl r p)) j = Some TWorking /\ nth_error (l_st (tl r i)) k = Some TWorking /\ ~ j < k.
+Proof.
+  exists ex_one_cfg, ex_ff_opts, 0, 1. split; [left; reflexivity|]. split; [reflexivity|].
+  split; [vm_compute; reflexivity|]. split; [vm_compute; reflexivity|].
+  exists 0, 0. split; [vm_compute; reflexivity|]. split; [vm_compute; reflexivity|]. apply Nat.lt_irrefl.
+Qed.
+Print Assumptions C17_backward_order_refuted_for_input_only_links.
+
 (* non-vacuity: a chain 0 -> 1 -> 2 with due times making task 0's reversed
    image a tail that needs a helper: two tails after reversal would need two
    sinks; use a fork 0 -> 1, 0 -> 2 (reversed: tails 1 and 2) with due 3 and 7 *)
